@@ -87,6 +87,16 @@ def exec (dst : Nat) (op : String) : M Unit := do
       let xs : Arr N (Vec D F) := v2 x
       setReg dst (.arr [R, N] (d2 (tab2 fun (r : Fin R) (n : Fin N) => f.evalLn r (xs n))))
     | _ => refuse "shape-error"
+  | "evaluate" => do
+    -- evaluate(x) = exp(evaluate_ln(x)) (element_wise = False): result [R, N]
+    let ⟨R, D, f⟩ ← getFactor (← reg)
+    let (shape, x) ← getArr (← reg)
+    match shape with
+    | [N, D'] =>
+      if D' ≠ D then refuse "shape-error"
+      let xs : Arr N (Vec D F) := v2 x
+      setReg dst (.arr [R, N] (d2 (tab2 fun (r : Fin R) (n : Fin N) => f.toB.eval r (xs n))))
+    | _ => refuse "shape-error"
   | "evalln_ew" => do
     let ⟨R, D, f⟩ ← getFactor (← reg)
     let (shape, x) ← getArr (← reg)
